@@ -128,6 +128,8 @@ pub fn run(tier: &str, seed: u64, widen: bool) -> Report {
     }
     // aggregate comparison (`==` / `!=` on arrays, slices, structs, sum types)
     crate::c01_eq::run(&mut rep, &mut rng, tier, widen);
+    // evaluation order of struct-literal members, array items, arguments, operands
+    crate::c01_order::run(&mut rep, &mut rng, tier, widen);
     rep
 }
 
